@@ -20,7 +20,10 @@ Inductive ob := ObNone | ObS (s : sample) | ObPanic.
 Inductive kind :=
 | KChain (inputs : list (list sample)) (script : list op) (obs : list ob)
 | KSets (sets : list (list series)) (limit : Z) (script : list op) (obs : list (Z * list ob))
-| KChunks (compacting : bool) (its : list (list chunk)) (obs : option (list chunk)).
+| KChunks (compacting : bool) (cuts_modelled : bool) (its : list (list chunk)) (obs : option (list chunk)).
+(* cuts_modelled = false: counter float histograms whose appender starts a new chunk at a counter
+   reset — the model's re-encoding does not know these cuts, so only the merged timestamp
+   sequence is compared with it; [holds] judges the chunk metas in full. *)
 
 Record case := mkCase { c_id : Z; c_kind : kind }.
 
@@ -106,14 +109,14 @@ Definition kinds_unambiguous (its : list (list chunk)) : bool :=
   let all := all_samples its in
   forallb (fun a => forallb (fun b => negb (s_t a =? s_t b) || (s_k a =? s_k b)) all) all.
 
-Definition agree_chunks (compacting : bool) (its : list (list chunk)) (obs : option (list chunk)) : bool :=
+Definition agree_chunks (compacting cuts : bool) (its : list (list chunk)) (obs : option (list chunk)) : bool :=
   if compacting then
     match fst (compact_chunks [] its), obs with
     | None, None => true
     | Some ms, Some os =>
         forallb (fun s => mem_sample s (all_samples its)) (concat (map c_smp os)) &&
         list_eqb Z.eqb (chunks_ts ms) (chunks_ts os) &&
-        (if kinds_unambiguous its
+        (if cuts && kinds_unambiguous its
          then list_eqb Z.eqb (map c_min ms) (map c_min os) && list_eqb Z.eqb (map c_max ms) (map c_max os)
               && list_eqb Z.eqb (map (fun c => Z.of_nat (length (c_smp c))) ms)
                                 (map (fun c => Z.of_nat (length (c_smp c))) os)
@@ -165,7 +168,7 @@ Definition agree (c : case) : bool :=
   match c_kind c with
   | KChain inputs script obs => agree_chain inputs script obs
   | KSets sets limit script obs => agree_sets sets limit script obs
-  | KChunks cp its obs => agree_chunks cp its obs
+  | KChunks cp cuts its obs => agree_chunks cp cuts its obs
   end.
 
 Definition holds (c : case) : bool :=
@@ -174,7 +177,7 @@ Definition holds (c : case) : bool :=
       if inputs_sorted inputs && negb (match inputs with [] => true | _ => false end)
       then holds_chain inputs script obs else true
   | KSets sets limit script obs => holds_sets sets limit script obs
-  | KChunks cp its obs => holds_chunks cp its obs
+  | KChunks cp _ its obs => holds_chunks cp its obs
   end.
 
 Definition mismatches (cs : list case) : list Z := map c_id (filter (fun c => negb (agree c)) cs).
